@@ -22,11 +22,13 @@ ASSUMPTIONS = [
     "random.uniform(a, b) lies between a and b; send_sd observed as a call (no remote argument = multicast group)",
     "repetition count 0..4 enumerated (the property's own bound); delays and TTL symbolic",
 ]
-BOUNDED = ["two watched filters (ids/versions incl. wildcards symbolic); repetition count enumerated 0..4"]
+BOUNDED = ["zero to two watched filters (the property quantifies over one to four; three already take 13 minutes; ids/versions incl. wildcards symbolic); repetition count enumerated 0..4 (the property's own bound)"]
 EXPLANATION = "the find task is verified as a trace for every timing configuration and every change of the known offers between rounds; the number of watched filters is bounded in shape (bounded_stand_ins)"
 
 
 class _L(SD.ClientServiceListener):
+    VC_MODEL = True  # environment model (write-only recorder): outside the frames of loop contracts
+
     pass
 
 
@@ -43,8 +45,9 @@ def ob_send_find_services(vc):
     t.FIND_TTL = vc.int("find_ttl", 1, 0xFFFFFF)
     n = vc.choice("watched", (0, 1, 2))
     filters = [SCFG.gen_service(vc, "F" + str(j), with_options=False) for j in range(n)]
-    if n == 2:
-        vc.assume(filters[0].service_id != filters[1].service_id)
+    for a in range(n):
+        for b in range(a + 1, n):
+            vc.assume(filters[a].service_id != filters[b].service_id)
     for f in filters:
         disc.watched_services[f].add(_L())
     A = vc.opaque("A", "addr")
